@@ -12,21 +12,14 @@ git -C /repo worktree add -q --detach $SC HEAD || exit 2
 trap 'git -C /repo worktree remove --force '$SC' 2>/dev/null; rm -rf /tmp/scbin-'$TAG EXIT
 git -C $SC apply "$PATCH" || { echo "patch does not apply"; exit 2; }
 mkdir -p /tmp/scbin-$TAG
-OV=/tmp/scbin-$TAG/overlay.json
-{
- echo '{"Replace": {'
- echo " \"/repo/verifseam/seam.go\": \"$HERE/harness/seam/seam.go\","
- echo " \"/repo/internal/sort/zz_verif.go\": \"$HERE/harness/seam/sort_zz_verif.go\","
- echo -n " \"/repo/internal/fastcsv/zz_verif.go\": \"$HERE/harness/seam/fastcsv_zz_verif.go\""
- for f in $(git -C $SC diff --name-only; git -C $SC ls-files --others --exclude-standard); do
-   echo ","; echo -n " \"/repo/$f\": \"$SC/$f\""
- done
- echo; echo '}}'
-} > $OV
-cd "$HERE/harness"
-go build -tags verif -overlay $OV -o /tmp/scbin-$TAG/qfmc . || { echo "MUTANT $TAG: does not build"; exit 2; }
+EX=/tmp/scbin-$TAG/extra_overlay.txt
+: > $EX
+for f in $(git -C $SC diff --name-only; git -C $SC ls-files --others --exclude-standard); do
+  echo " \"/repo/$f\": \"$SC/$f\"," >> $EX
+done
+VERIF_BIN_DIR=/tmp/scbin-$TAG VERIF_EXTRA_OVERLAY=$EX "$HERE/build.sh" || { echo "MUTANT $TAG: does not build"; exit 2; }
 for id in "$@"; do
-  if [ "$id" = "C11" ]; then go build -race -tags verif -overlay $OV -o /tmp/scbin-$TAG/qfmc-race . || exit 2; fi
+  if [ "$id" = "C11" ]; then VERIF_BIN_DIR=/tmp/scbin-$TAG VERIF_EXTRA_OVERLAY=$EX "$HERE/build.sh" race || exit 2; fi
   out="$(VERIF_DIR=$HERE VERIF_NO_EVIDENCE=1 VERIF_RACE_BIN=/tmp/scbin-$TAG/qfmc-race /tmp/scbin-$TAG/qfmc run "$id" "$TIER" 2>&1)"; rc=$?
   v=$(echo "$out" | grep -c '^VIOLATION')
   echo "MUTANT $(basename "$(dirname "$PATCH")")/$(basename "$PATCH") $id $TIER exit=$rc violation_lines=$v"
